@@ -22,6 +22,7 @@ import (
 
 	"cosmossdk.io/math"
 	sdk "github.com/cosmos/cosmos-sdk/types"
+	"github.com/cosmos/cosmos-sdk/types/query"
 	teststaking "github.com/cosmos/cosmos-sdk/x/staking/testutil"
 	"github.com/stretchr/testify/require"
 
@@ -240,6 +241,92 @@ func TestBoundedQueries(t *testing.T) {
 				sort.Strings(gotR)
 				if err != nil || fmt.Sprint(gotR) != fmt.Sprint(wantR) {
 					fact("redelegations_by_delegator_exact", "history %d step %d user %d: query returned %v (err %v), primary records hold %v", hist, step, ui2, gotR, err, wantR)
+				}
+				// paged requests are windows of the full listing (validates the pagination model the contracts of the paginated queries
+				// rest on: prefix-store iteration + the inlined cosmos-sdk query.Paginate)
+				if err == nil {
+					full := func(rs []types.RedelegationEntry) (out []string) {
+						for _, r := range rs {
+							out = append(out, fmt.Sprintf("%d|%s|%s|%s", r.CompletionTime.UnixNano(), r.SrcValidatorAddress, r.DstValidatorAddress, r.Balance.String()))
+						}
+						return
+					}
+					all := full(rr.Redelegations)
+					for _, pg := range [][2]uint64{{0, 1}, {1, 1}, {1, 2}, {0, 2}, {2, 5}} {
+						pr, perr := qs.AllianceRedelegationsByDelegator(ctx, &types.QueryAllianceRedelegationsByDelegatorRequest{DelegatorAddr: u.String(), Pagination: &query.PageRequest{Offset: pg[0], Limit: pg[1]}})
+						lo, hi := int(pg[0]), int(pg[0]+pg[1])
+						if lo > len(all) {
+							lo = len(all)
+						}
+						if hi > len(all) {
+							hi = len(all)
+						}
+						if perr != nil || fmt.Sprint(full(pr.Redelegations)) != fmt.Sprint(all[lo:hi]) {
+							fact("paged_redelegations_are_windows_of_the_listing", "history %d step %d user %d offset %d limit %d: page %v (err %v), full listing %v", hist, step, ui2, pg[0], pg[1], safeCanon(pr != nil, func() string { return fmt.Sprint(full(pr.Redelegations)) }), perr, all)
+						}
+						for _, dn := range denoms {
+							fa, e1 := qs.AllianceRedelegations(ctx, &types.QueryAllianceRedelegationsRequest{Denom: dn, DelegatorAddr: u.String()})
+							pa, e2 := qs.AllianceRedelegations(ctx, &types.QueryAllianceRedelegationsRequest{Denom: dn, DelegatorAddr: u.String(), Pagination: &query.PageRequest{Offset: pg[0], Limit: pg[1]}})
+							if e1 != nil || e2 != nil {
+								fact("paged_redelegations_are_windows_of_the_listing", "history %d step %d user %d denom %s offset %d limit %d: errors %v %v", hist, step, ui2, dn, pg[0], pg[1], e1, e2)
+								continue
+							}
+							alld := full(fa.Redelegations)
+							lo, hi := int(pg[0]), int(pg[0]+pg[1])
+							if lo > len(alld) {
+								lo = len(alld)
+							}
+							if hi > len(alld) {
+								hi = len(alld)
+							}
+							if fmt.Sprint(full(pa.Redelegations)) != fmt.Sprint(alld[lo:hi]) {
+								fact("paged_redelegations_are_windows_of_the_listing", "history %d step %d user %d denom %s offset %d limit %d: page %v, full listing %v", hist, step, ui2, dn, pg[0], pg[1], full(pa.Redelegations), alld)
+							}
+						}
+					}
+				}
+				// the delegator's positions, listed and paged
+				{
+					var wantD []string
+					app.AllianceKeeper.IterateDelegations(ctx, func(d types.Delegation) bool {
+						if d.DelegatorAddress == u.String() {
+							asset, _ := app.AllianceKeeper.GetAssetByDenom(ctx, d.Denom)
+							va, _ := sdk.ValAddressFromBech32(d.ValidatorAddress)
+							wantD = append(wantD, fmt.Sprintf("%s|%s|%s|%s", d.ValidatorAddress, d.Denom, d.Shares, types.GetDelegationTokens(d, getVal(ctx, va), asset)))
+						}
+						return false
+					})
+					sort.Strings(wantD)
+					list := func(ds []types.DelegationResponse) (out []string) {
+						for _, d := range ds {
+							out = append(out, fmt.Sprintf("%s|%s|%s|%s", d.Delegation.ValidatorAddress, d.Delegation.Denom, d.Delegation.Shares, d.Balance))
+						}
+						return
+					}
+					dr, derr := qs.AlliancesDelegation(ctx, &types.QueryAlliancesDelegationsRequest{DelegatorAddr: u.String()})
+					if derr != nil {
+						fact("delegations_by_delegator_exact", "history %d step %d user %d: error %v", hist, step, ui2, derr)
+					} else {
+						allD := list(dr.Delegations)
+						sorted := append([]string{}, allD...)
+						sort.Strings(sorted)
+						if fmt.Sprint(sorted) != fmt.Sprint(wantD) {
+							fact("delegations_by_delegator_exact", "history %d step %d user %d: query returned %v, primary records hold %v", hist, step, ui2, sorted, wantD)
+						}
+						for _, pg := range [][2]uint64{{0, 1}, {1, 2}, {2, 3}} {
+							pr, perr := qs.AlliancesDelegation(ctx, &types.QueryAlliancesDelegationsRequest{DelegatorAddr: u.String(), Pagination: &query.PageRequest{Offset: pg[0], Limit: pg[1]}})
+							lo, hi := int(pg[0]), int(pg[0]+pg[1])
+							if lo > len(allD) {
+								lo = len(allD)
+							}
+							if hi > len(allD) {
+								hi = len(allD)
+							}
+							if perr != nil || fmt.Sprint(list(pr.Delegations)) != fmt.Sprint(allD[lo:hi]) {
+								fact("paged_delegations_are_windows_of_the_listing", "history %d step %d user %d offset %d limit %d: page %v (err %v), full listing %v", hist, step, ui2, pg[0], pg[1], safeCanon(pr != nil, func() string { return fmt.Sprint(list(pr.Delegations)) }), perr, allD)
+							}
+						}
+					}
 				}
 				for _, dn := range denoms {
 					var wantRD []string
